@@ -80,4 +80,80 @@ example : shapeOK ⟨sDateRange, [], none, some ("2016-11-07".toList.map Char.to
 example : shapeOK ⟨sDateRange, [], none, some ("2016-11-07".toList.map Char.toNat), some ("2016-11-14".toList.map Char.toNat)⟩ = true := by decide
 example : typeNameOK ("datetimeV2.date".toList.map Char.toNat) [⟨sTime, [], none, none, none⟩] = false := by decide
 
+theorem formatTime_ne_notResolved (h m s : Nat) : formatTime h m s ≠ sNotResolved := by
+  intro hx
+  have : (formatTime h m s).length = sNotResolved.length := by rw [hx]
+  simp [formatTime, pad2, sNotResolved] at this
+
+theorem formatDateTime_ne_notResolved (x : Date) (h m s : Nat) : formatDateTime x h m s ≠ sNotResolved := by
+  intro hx
+  have : (formatDateTime x h m s).length = sNotResolved.length := by rw [hx]
+  simp [formatDateTime, formatDate, formatTime, pad4, pad2, sNotResolved] at this
+
+/-- C11 (assembly, times): a time slot whose past / future values are `format_time` of times of day yields only valid
+`HH:MM:SS` values. -/
+theorem assembly_wellformed_time (timex : Str) (h₁ m₁ s₁ h₂ m₂ s₂ : Nat)
+    (a₁ : h₁ < 24) (b₁ : m₁ < 60) (c₁ : s₁ < 60) (a₂ : h₂ < 24) (b₂ : m₂ < 60) (c₂ : s₂ < 60) :
+    ∀ v ∈ resolveSingle sTime timex (formatTime h₁ m₁ s₁) (formatTime h₂ m₂ s₂), shapeOK v = true := by
+  intro v hv
+  rcases resolveSingle_mem _ _ _ _ v hv with h | h | h <;> subst h
+  · simp [shapeOK, sTime, sDate, formatTime_ne_notResolved, parseTime_formatTime h₁ m₁ s₁ a₁ b₁ c₁]
+  · simp [shapeOK, sTime, sDate, formatTime_ne_notResolved, parseTime_formatTime h₂ m₂ s₂ a₂ b₂ c₂]
+  · simp [shapeOK]
+
+/-- C11 (assembly, datetimes). -/
+theorem assembly_wellformed_datetime (timex : Str) (x y : Date) (hx : x.valid = true) (hy : y.valid = true)
+    (h₁ m₁ s₁ h₂ m₂ s₂ : Nat)
+    (a₁ : h₁ < 24) (b₁ : m₁ < 60) (c₁ : s₁ < 60) (a₂ : h₂ < 24) (b₂ : m₂ < 60) (c₂ : s₂ < 60) :
+    ∀ v ∈ resolveSingle sDateTime timex (formatDateTime x h₁ m₁ s₁) (formatDateTime y h₂ m₂ s₂), shapeOK v = true := by
+  intro v hv
+  rcases resolveSingle_mem _ _ _ _ v hv with h | h | h <;> subst h
+  · simp [shapeOK, sTime, sDate, sDateTime, formatDateTime_ne_notResolved, parseDateTime_format x hx h₁ m₁ s₁ a₁ b₁ c₁]
+  · simp [shapeOK, sTime, sDate, sDateTime, formatDateTime_ne_notResolved, parseDateTime_format y hy h₂ m₂ s₂ a₂ b₂ c₂]
+  · simp [shapeOK]
+
+theorem formatDate_not_invalid_prefix (x : Date) (h : x.valid = true) (hne : x ≠ ⟨1, 1, 1⟩) :
+    startsWith (formatDate x) sInvalidDate = false := by
+  have hp := parseDate_formatDate x h
+  have hlen : (formatDate x).length = 10 := by simp [formatDate, pad4, pad2]
+  cases hc : startsWith (formatDate x) sInvalidDate with
+  | false => rfl
+  | true =>
+    exfalso
+    have heq : formatDate x = minValue := by
+      simp only [startsWith, sInvalidDate, decide_eq_true_eq] at hc
+      have ht : (formatDate x).take 10 = formatDate x := List.take_of_length_le (by omega)
+      simpa [minValue, ht] using hc
+    rw [heq] at hp
+    have h1 : parseDate minValue = some ⟨1, 1, 1⟩ := by decide
+    rw [h1] at hp
+    exact hne (Option.some.inj hp).symm
+
+/-- C11 (assembly, pure date ranges): a date-range slot without modifier whose end points are `format_date` of valid
+dates `a < b` (neither the minimum date) yields a value with both ends, start strictly before end. -/
+theorem period_wellformed_daterange (timex : Str) (a b : Date) (ha : a.valid = true) (hb : b.valid = true)
+    (hlt : a.ord < b.ord) (na : a ≠ ⟨1, 1, 1⟩) (nb : b ≠ ⟨1, 1, 1⟩) :
+    ∃ v, periodValue sDateRange timex [] (some (formatDate a)) (some (formatDate b)) = some v ∧ shapeOK v = true := by
+  have ia := formatDate_not_invalid_prefix a ha na
+  have ib := formatDate_not_invalid_prefix b hb nb
+  have hne : ∀ x : Date, formatDate x ≠ [] := by intro x; simp [formatDate, pad4]
+  refine ⟨⟨sDateRange, timex, none, some (formatDate a), some (formatDate b)⟩, ?_, ?_⟩
+  · simp [periodValue, addPeriod, sSince, hne, ia, ib]
+  · simp [shapeOK, sDateRange, sDate, sTime, sDateTime, sDuration, parseDate_formatDate a ha, parseDate_formatDate b hb, hlt]
+
+/-- C11 ("a non-existent date yields 'not resolved', never an invalid value"): a range slot one of whose ends starts
+with the invalid-date string contributes NO value — whichever end it is. -/
+theorem period_invalid_end_filtered (outType timex s₁ s₂ t : Str) (h₁ : s₁ ≠ []) :
+    periodValue outType timex [] (some s₁) (some (sInvalidDate ++ t)) = none ∧
+    periodValue outType timex [] (some (sInvalidDate ++ t)) (some s₁) = none := by
+  have hs : startsWith (sInvalidDate ++ t) sInvalidDate = true := by simp [startsWith, sInvalidDate, minValue]
+  have hn : sInvalidDate ++ t ≠ [] := by simp [sInvalidDate, minValue]
+  constructor <;> simp [periodValue, addPeriod, sSince, h₁, hn, hs]
+
+/-- C11 (open ranges): with a `before` / `after` / `since` modifier exactly one end is written. -/
+theorem period_modifier_one_end (s e : Option Str) :
+    addPeriod sBefore s e = (none, some s) ∧ addPeriod sAfter s e = (some e, none) ∧ addPeriod sSince s e = (some s, none) := by
+  refine ⟨by simp [addPeriod, startsWith, endsWith, sBefore, sLate], by simp [addPeriod, startsWith, endsWith, sAfter, sBefore, sEarly], ?_⟩
+  simp [addPeriod, startsWith, sSince, sBefore, sAfter]
+
 end RTV.WF
